@@ -57,11 +57,12 @@ type c07Got struct {
 
 func init() {
 	register(&PropDef{
-		ID:   "C07",
-		Rule: "scenario = (client or component; 1-4 application tasks issuing 1-6 SendIQ each with contexts left open / cancelled / timing out, callers reading at once / later / never; per request the server answers once / delayed / twice / twice back-to-back / never / with a foreign id / with type error; segmentation, latency, handler slowness); non-trivial = at least one response was delivered to the client while its request was pending; distinct = distinct (scenario hash, schedule hash)",
-		Real: []string{"Client.SendIQ / Component.SendIQ", "Router.route pending-request lookup and delivery", "Router.NewIQResultRoute and its context watcher", "recv loops, per-packet route goroutines"},
-		Stub: []string{"TCP (simnet)", "XMPP server (scripted model answering per plan)", "clock (synctest)", "goroutine scheduling (token scheduler, incl. PCT starvation of the caller)", "sync.RWMutex (equivalent shim)"},
-		Run:  runC07,
+		ID:    "C07",
+		Rule:  "scenario = (client or component; 1-4 application tasks issuing 1-6 SendIQ each with contexts left open / cancelled / timing out, callers reading at once / later / never; per request the server answers once / delayed / twice / twice back-to-back / never / with a foreign id / with type error; segmentation, latency, handler slowness); non-trivial = at least one response was delivered to the client while its request was pending; distinct = distinct (scenario hash, schedule hash)",
+		Real:  []string{"Client.SendIQ / Component.SendIQ", "Router.route pending-request lookup and delivery", "Router.NewIQResultRoute and its context watcher", "recv loops, per-packet route goroutines"},
+		Stub:  []string{"TCP (simnet)", "XMPP server (scripted model answering per plan)", "clock (synctest)", "goroutine scheduling (token scheduler, incl. PCT starvation of the caller)", "sync.RWMutex (equivalent shim)"},
+		Run:   runC07,
+		Reach: []string{"c07.answer_at_context_end", "c07.retry_with_same_id", "c07.peer_request_with_same_id", "c07.answered_across_reconnect", "c07.handler_sends_iq"},
 	})
 }
 
